@@ -33,13 +33,15 @@ def gen_history(rng, n_sessions: int, eps: int):
             sub = rng.choice(list(SUBS))
             writes = []
             for _ in range(rng.choice([1, 1, 2, 3])):
-                writes.append([rng.randrange(3), rng.choice([0, 1, eps, eps + 1, 2 * eps + 1])])
-            if not any(n for _, n in writes): writes[0][1] = 1
+                # third component: the caller's *last* write to that split in this step is a rejected one (wrong shape,
+                # caught by the caller) — in particular right after a shard became full
+                writes.append([rng.randrange(3), rng.choice([0, 1, eps, eps + 1, 2 * eps, 2 * eps + 1]), rng.random() < 0.3])
+            if not any(w[1] for w in writes): writes[0][1] = 1
             hist.append({"kind": "filler", "sub": sub, "writes": writes, "reopen": reopen})
         else:
             k = rng.choice([1, 2, 3])
-            writers = [[[rng.randrange(3), rng.choice([0, 1, eps + 1])] for _ in range(rng.choice([1, 2]))] for _ in range(k)]
-            if not any(n for w in writers for _, n in w): writers[0][0][1] = 2
+            writers = [[[rng.randrange(3), rng.choice([0, 1, eps, eps + 1]), rng.random() < 0.25] for _ in range(rng.choice([1, 2]))] for _ in range(k)]
+            if not any(x[1] for w in writers for x in w): writers[0][0][1] = 2
             hist.append({"kind": "multi", "writers": writers, "reopen": reopen})
     return hist
 
@@ -121,6 +123,15 @@ def recount(root: Path):
     return problems, per_split
 
 
+def bad_write(f, split):
+    """A write the library must reject (wrong shape); the caller carries on."""
+    try:
+        f.write_example(values={"a": sp.np.zeros((3,), dtype=sp.np.int32)}, split=split)
+    except Exception:  # noqa: BLE001
+        return
+    raise AssertionError("a wrong-shape example was accepted")
+
+
 def run_history(root: Path, fmt: str, eps: int, hist):
     """Execute on the real API. Returns per-session records."""
     import uuid as real_uuid
@@ -146,22 +157,26 @@ def run_history(root: Path, fmt: str, eps: int, hist):
         try:
             if se["kind"] == "filler":
                 with DatasetFiller(ds, relative_path_from_split=Path(se["sub"])) as f:
-                    for s, n in se["writes"]:
+                    for s, n, *rej in se["writes"]:
                         for _ in range(n):
                             f.write_example(values=sp.val(nxt), split=SPLITS[s]); written[s].append(nxt); nxt += 1
+                        if rej and rej[0]:
+                            bad_write(f, SPLITS[s])
             else:
                 def feed(filler, plan):
                     nonlocal nxt
                     with filler as f:
-                        for s, ids in plan:
+                        for s, ids, rej in plan:
                             for v in ids:
                                 f.write_example(values=sp.val(v), split=SPLITS[s])
+                            if rej:
+                                bad_write(f, SPLITS[s])
                     return len(plan)
                 plans = []
                 for w in se["writers"]:
                     plan = []
-                    for s, n in w:
-                        ids = list(range(nxt, nxt + n)); nxt += n; written[s] += ids; plan.append((s, ids))
+                    for s, n, *rej in w:
+                        ids = list(range(nxt, nxt + n)); nxt += n; written[s] += ids; plan.append((s, ids, bool(rej and rej[0])))
                     plans.append((plan,))
                 DW.uuid = UuidMod
                 try:
